@@ -35,6 +35,10 @@ type Phase struct {
 	KillAtMs   int    `json:"kill_at_ms"`  // with DuringLoad: delay after the start of the phase
 	Restart    []int  `json:"restart"`     // restart order (a permutation of Kill)
 	Kinds      string `json:"kinds"`       // which value types the writers use: "s" strings only | "all"
+	// Slow > 0: that many times during the load a client sends a command that keeps the state machine busy
+	// for a second (a blocking pop on a list that stays empty is executed inside the apply loop): commit
+	// batches then take long to apply, whatever is waiting for "applied" waits long too
+	Slow int `json:"slow,omitempty"`
 }
 
 type Case struct {
@@ -361,6 +365,19 @@ func execCase(c Case) kit.Outcome {
 		for wi, node := range p.Writers {
 			startWriter(pi*100+wi, node, p.PerWriter, p.Kinds)
 		}
+		if p.Slow > 0 {
+			wg.Add(1)
+			go func(n int) {
+				defer wg.Done()
+				for i := 0; i < n; i++ {
+					time.Sleep(time.Duration(40+60*i) * time.Millisecond)
+					if cn, err := cl.Dial(1 + i%3); err == nil {
+						_, _ = cn.DoS(4*time.Second, "BLPOP", "never:pushed:to", "1")
+						cn.Close()
+					}
+				}
+			}(p.Slow)
+		}
 		kill := func() {
 			for _, n := range p.Kill {
 				cl.Kill(n)
@@ -402,6 +419,28 @@ func execCase(c Case) kit.Outcome {
 			wg.Wait()
 		} else {
 			wg.Wait()
+			if p.Slow > 0 {
+				// a last burst: a command that keeps the state machine busy for a second and, right behind it
+				// through the same node, one write each from a dozen connections - the commit batch that crosses
+				// the snapshot threshold last is one that takes long to apply. Everything is acknowledged before
+				// the nodes are killed; nothing follows, so the snapshots taken now are the newest ones.
+				node := 1 + seq%3
+				for b := 0; b < 12; b++ {
+					if b%5 == 0 {
+						wg.Add(1)
+						go func() {
+							defer wg.Done()
+							if cn, err := cl.Dial(node); err == nil {
+								_, _ = cn.DoS(6*time.Second, "BLPOP", "never:pushed:to", "1")
+								cn.Close()
+							}
+						}()
+					}
+					startWriter(pi*100+50+b, node, 1, "all")
+				}
+				wg.Wait()
+				time.Sleep(300 * time.Millisecond)
+			}
 			if c.TornTail > 0 {
 				// every node must hold every entry before one log is torn (the torn record then belongs
 				// to a write that a majority still has)
@@ -719,6 +758,9 @@ func genSnapshotLoad(t *rapid.T) Case {
 	np := rapid.IntRange(1, 2).Draw(t, "phases")
 	for i := 0; i < np; i++ {
 		p := Phase{PerWriter: rapid.SampledFrom([]int{20, 40}).Draw(t, "per"), Kinds: "all", Kill: []int{1, 2, 3}, Restart: rapid.Permutation([]int{1, 2, 3}).Draw(t, "restart")}
+		if rapid.Bool().Draw(t, "slow") {
+			p.Slow = rapid.IntRange(1, 3).Draw(t, "nslow")
+		}
 		nw := rapid.IntRange(8, 16).Draw(t, "writers")
 		for w := 0; w < nw; w++ {
 			p.Writers = append(p.Writers, 1+rapid.IntRange(0, 2).Draw(t, "wnode"))
